@@ -6,7 +6,7 @@ import (
 	"os"
 	"runtime/pprof"
 
-	_ "verif/checks"
+	"verif/checks"
 	"verif/engine"
 )
 
@@ -14,6 +14,10 @@ func main() {
 	if len(os.Args) < 2 {
 		fmt.Println("usage: verif <Cxx> quick|thorough | <Cxx> replay <file> | setup")
 		os.Exit(2)
+	}
+	if os.Args[1] == "worker" {
+		checks.WorkerMain()
+		return
 	}
 	if os.Args[1] == "setup" {
 		fmt.Println("setup ok:", len(engine.Registry), "checks registered")
